@@ -168,6 +168,14 @@ fn ystr(s: &str) -> Yaml {
 }
 
 fn gen_word(rng: &mut Rng, k: &Knobs) -> String {
+    if k.has(F_QUOTING) && rng.chance(1, 14) {
+        // a long run of one multi-byte character behind 0-3 ASCII characters: whatever byte
+        // offset some code cuts, counts or slices at (32, 96, 256, ...), one of these draws has
+        // the middle of a character there
+        let ch = *rng.pick(&["\u{e9}", "\u{65e5}", "\u{1f980}", "\u{df}"]);
+        let n = *rng.pick(&[20usize, 40, 70, 130, 200, 400]);
+        return format!("{}{}", &"abc"[..rng.below(4)], ch.repeat(n));
+    }
     if k.has(F_QUOTING) && rng.chance(1, 3) {
         (*rng.pick(&QUOTING_WORDS)).to_owned()
     } else {
